@@ -411,6 +411,19 @@ def f_zero_neighbours(ck, F):
                     conds.add(arms.get(su, 1))
         if conds != {1}: ok = False
     ps = [(bb, t) for bb, t in rr.find_calls(F, b, 'Vec::<T, A>::push') if strip_ref(D.origin(t['args'][1]))[:2] == ('multi', mv) or expr_of(F, b, t['args'][1]) == ('multi', mv)]
+    # "per macroblock": the zero initialisation is executed in every iteration of the macroblock loop, before the vectors are recorded
+    per_mb = False
+    if ok and len(ps) == 1:
+        try:
+            from . import c15
+            h_, loop_, _ = c15.mb_loop(F, b)
+            per_mb = inits[0][0] in loop_ and g.dominates(inits[0][0], ps[0][0]) and all(g.dominates(inits[0][0], bb) for bb, _ in writes)
+        except Exception:
+            per_mb = False
+        if not per_mb:
+            ck.violation('F', 'F : closure : zero vectors per macroblock', where_of(b, inits[0][0]), 'motion_vectors is not reset to zero inside the macroblock loop before it is written and recorded: '
+                         'an intra or not-coded macroblock would record the previous macroblock\'s vectors')
+            return
     if ok and len(ps) == 1 and len(writes) >= 7:
         ck.ok('F', 'motion_vectors = [zero; 4] per macroblock, %d element writes all under is_inter(), pushed once' % len(writes), where_of(b, ps[0][0]))
     else:
